@@ -79,11 +79,7 @@ def expected_address(kind, pt, testnet):
 def judge_record(data, rm, testnet, account, interval, master_echo, what):
     if not isinstance(data, dict) or set(data) != {"MASTER", "BIP85", "BIP44", "BIP49", "BIP84"}:
         raise Violation("C06/record/sections", "%s: sections %r" % (what, sorted(data) if isinstance(data, dict) else data))
-    def _n(x):
-        return unicodedata.normalize("NFKD", x) if isinstance(x, str) else x
-    mb = data["MASTER"]
-    if not isinstance(mb, dict) or set(mb) != {"mnemonic", "password"} or _n(mb["mnemonic"]) != _n(master_echo[0]) \
-            or _n(mb["password"]) != _n(master_echo[1]):
+    if data["MASTER"] != {"mnemonic": master_echo[0], "password": master_echo[1]}:
         raise Violation("C06/master/echo", "%s: MASTER block %r, expected mnemonic/passphrase %r" % (what, data["MASTER"], master_echo))
     coin = 1 if testnet else 0
     s, e = interval
